@@ -46,9 +46,12 @@ def convert_value(value):
     if isinstance(value, bool):
         return AnyValue(bool_value=value)
     if isinstance(value, str):
-        return AnyValue(string_value=value)
+        return AnyValue(string_value=utf8_text(value))
     if isinstance(value, int):
-        return AnyValue(int_value=value)
+        if -2 ** 63 <= value < 2 ** 63:
+            return AnyValue(int_value=value)
+        # int_value is 64 bit: a larger number is sent as its text, one such attribute must not cost us the message
+        return AnyValue(string_value=str(value))
     if isinstance(value, float):
         return AnyValue(double_value=value)
     if isinstance(value, bytes):
@@ -62,12 +65,33 @@ def convert_value(value):
     return None
 
 
+def utf8_text(value):
+    """
+    Make a python string acceptable as a protobuf string.
+
+    Protobuf strings have to be valid UTF-8, python strings can contain lone surrogates (e.g. an environment variable or
+    file name that is not valid UTF-8, decoded with surrogateescape). They are sent with the code point escaped.
+    """
+    if isinstance(value, str):
+        try:
+            value.encode('utf-8')
+        except UnicodeEncodeError:
+            return value.encode('utf-8', 'backslashreplace').decode('utf-8')
+    return value
+
+
+def __element(value):
+    # an element we have no wire type for (None in a sequence of an attribute) is sent as an unset value
+    converted = convert_value(value)
+    return AnyValue() if converted is None else converted
+
+
 def __value_as_dict(value):
-    return KeyValueList(values=[KeyValue(key=k, value=convert_value(v)) for k, v in value.items()])
+    return KeyValueList(values=[KeyValue(key=utf8_text(k), value=__element(v)) for k, v in value.items()])
 
 
 def __value_as_list(value):
-    return ArrayValue(values=[convert_value(val) for val in value])
+    return ArrayValue(values=[__element(val) for val in value])
 
 
 def convert_resource(resource):
@@ -82,7 +106,7 @@ def convert_resource(resource):
 
 def __convert_attributes(attributes):
     return Resource(dropped_attributes_count=attributes.dropped,
-                    attributes=[KeyValue(key=k, value=convert_value(v)) for k, v in attributes.items()])
+                    attributes=[KeyValue(key=utf8_text(k), value=convert_value(v)) for k, v in attributes.items()])
 
 
 def __convert_static_value(value):
